@@ -13,7 +13,9 @@ def correspondence(ctx):
     bad, st, samples = backends.value_lattice(ctx)
     bad2, st2 = backends.dimension_lattice(ctx)     # float64 / int64 / float32 columns, imputed keyword values
     bad3, st3 = backends.dtype_value_lattice(ctx)   # int64 / int32 / float32 / mixed columns through every vector-valued method
-    bad = bad + bad2 + bad3
+    bad4, st4 = backends.function_form_lattice(ctx)   # numpy function forms, operands in either order / of either flavor
+    st.update(st4)
+    bad = bad + bad2 + bad3 + bad4
     st.update(st2)
     st.update(st3)
     st["elements_compared"] += st2["dimension_elements"] + st3["dtype_elements"]
@@ -31,5 +33,5 @@ def correspondence(ctx):
 
 def replay_code(seed, tier, key):
     return ("import sys; sys.path.insert(0, %r); sys.path.insert(0, %r)\nfrom harness import backends as Bk\n"
-            "class X: seed=%d; tier=%r\nbad, st, _ = Bk.value_lattice(X)\nbad += Bk.dimension_lattice(X)[0]\nbad += Bk.dtype_value_lattice(X)[0]\nhit=[b for b in bad if b[2]==%r]\n"
+            "class X: seed=%d; tier=%r\nbad, st, _ = Bk.value_lattice(X)\nbad += Bk.dimension_lattice(X)[0]\nbad += Bk.dtype_value_lattice(X)[0]\nbad += Bk.function_form_lattice(X)[0]\nhit=[b for b in bad if b[2]==%r]\n"
             "assert not hit, hit[0][0] + ' :: ' + hit[0][1]\n" % (C.VERIF, C.VERIF + "/tools", seed, tier, key))
